@@ -1108,7 +1108,6 @@ def run(tier):
     for dims in sorted(leaking, key=str):
         c, d0, d1 = leaking[dims]
         lgroups.setdefault(leak_cause(c, leaking), []).append((c, d0, d1))
-    findings = dict((f["id"], f) for f in common.load_findings("C14"))
     for cause in sorted(lgroups):
         lst = lgroups[cause]
         c0, d0, d1 = lst[0]
@@ -1128,11 +1127,6 @@ def run(tier):
             alone += " (not reproduced alone)"
         summary = ("objects stay allocated after every value of the call is dead (%s): case '%s' leaves %d objects behind after %d calls, %d after %d; %s; %d case(s) with this cause"
                    % (cause, c0["desc"], d0, LK[0], d1, LK[1], alone, len(lst)))
-        fid = "vm-elementwise-add-leaks-strings"
-        if fid in findings and cause.split(":")[1] in ("ew_as", "ew_sa", "ew_aa") and fin[1] > fin[0] >= 0:
-            # cause signature of that finding: the leaking operation is the element-wise + of string arrays
-            rep.known_finding(fid, findings[fid]["what"])
-            continue
         rep.violation("leak:" + cause, {"program_K%d.nano" % LK[0]: leak_program([c0], LK[0]), "program_K%d.nano" % LK[1]: leak_program([c0], LK[1]),
                                         "leaking_cases.txt": "".join("%s: %d -> %d\n" % (c["desc"], a, b) for c, a, b in lst)},
                       summary, "# heap_probe live 400000000 <module compiled from program_K%d.nano / program_K%d.nano>; compare final_live" % LK)
